@@ -205,6 +205,28 @@ NormalClauses(e) ==
                         FX!FxIsNonNeg(d) /\ ~FX!FxNear(d, FX!FxZero, FX!FxMulSmall(TolGeom, AbsSum(e.fac[k].out) + 1))]
               ELSE <<>>)
 
+\* a weak form assembled by one of the repository's own tests (harness/suite_c01.py): the pairing of the RETURNED tensor
+\* with dyadic coefficient vectors against the same integrand on the interpolated functions (ConsistentLaw), the shape
+\* (N_test, N_trial), and - when the pattern was recorded - every stored non-zero couples DOFs of one cell, rows with the
+\* test basis and columns with the trial basis
+SuitePatternOK(A, Bu, Bv) ==
+  LET cu == TLCEval([k \in 1..Bu.nel |-> {Bu.edofs[j][k] : j \in 1..Bu.nb}])
+      cv == TLCEval([k \in 1..Bv.nel |-> {Bv.edofs[j][k] : j \in 1..Bv.nb}])
+  IN \A n \in DOMAIN A.trip : \E k \in 1..Bu.nel : A.trip[n][1] \in cv[k] /\ A.trip[n][2] \in cu[k]
+SuiteBasisWF(B) == /\ B.nb >= 1 /\ B.nel >= 1 /\ Len(B.edofs) = B.nb
+                   /\ \A j \in 1..B.nb : Len(B.edofs[j]) = B.nel /\ \A k \in 1..B.nel : B.edofs[j][k] \in 1..B.N
+SuiteClauses(e) ==
+  IF e.err # "" THEN [NoUnexpectedError |-> FALSE]
+  ELSE IF ~(/\ \A l \in DOMAIN e.laws : /\ FX!FxWF(e.laws[l].lhs) /\ FX!FxWF(e.laws[l].rhs) /\ FX!FxWF(e.laws[l].mag)
+                                          /\ e.laws[l].mag[1] \in 0..16000
+            /\ (e.haspat = 1 => MatWF(e.pat) /\ SuiteBasisWF(e.Bu) /\ SuiteBasisWF(e.Bv) /\ e.Bu.nel = e.Bv.nel))
+       THEN [WellFormed |-> FALSE]
+  ELSE [NoUnexpectedError |-> TRUE, WellFormed |-> TRUE,
+        ShapeOK |-> e.shape = e.expect,
+        ConsistentLaw |-> \A l \in DOMAIN e.laws :
+            FX!FxNear(e.laws[l].lhs, e.laws[l].rhs, FX!FxMulSmall(TolSum, e.laws[l].mag[1] + 1))]
+       @@ (IF e.haspat = 1 THEN [RowsAreTest |-> e.pat.shape = <<e.Bv.N, e.Bu.N>> /\ SuitePatternOK(e.pat, e.Bu, e.Bv)] ELSE <<>>)
+
 Clauses(e) ==
   CASE e.a = "Bil"    -> BilClauses(e)
     [] e.a = "Lin"    -> LinClauses(e)
@@ -216,6 +238,7 @@ Clauses(e) ==
     [] e.a = "Law"    -> LawClauses(e)
     [] e.a = "List"   -> ListClauses(e)
     [] e.a = "Normal" -> NormalClauses(e)
+    [] e.a = "Suite"  -> SuiteClauses(e)
 
 Bump(c, r) == [k \in DOMAIN c \cup DOMAIN r |->
                  (IF k \in DOMAIN c THEN c[k] ELSE 0) + (IF k \in DOMAIN r THEN 1 ELSE 0)]
